@@ -61,6 +61,8 @@ class VecObj:
                 if I.truth(Sym("Ge", (idx, len(self.elems)), "bool")):
                     I.run.panics.append(("index_oob", I.where()))
                     raise PathEnd("panic", "index out of bounds")
+            if self.elems and not all(isinstance(e, (int, float)) for e in self.elems):
+                return pick_elem_indexed(I, self.elems, idx)
             return ElemOf(self, idx)
         if 0 <= idx < len(self.elems):
             return self.elems[idx]
@@ -584,15 +586,28 @@ def _slice_last(I, f, a):
     return some(Ref(ListSlot(el, len(el) - 1), ())) if el else none()
 
 
-@model("core::slice::<impl [T]>::get")
+@model("core::slice::<impl [T]>::get", "core::slice::<impl [T]>::get_mut")
 def _slice_get(I, f, a):
     v = deref(I, a[0])
     idx = a[1]
+    if isinstance(idx, Agg) and str(idx.adt).startswith("std::ops::Range"):
+        r = slice_range(I, v, idx, checked=True)
+        return none() if r is None else some(Ref(Box_(r, "slice"), ()))
     if hasattr(v, "get"):
         return v.get(I, idx)
+    if isinstance(v, Bytes) and not (v.fixed_len()[0] == v.fixed_len()[1] and all(p[0] == "lit" for p in v.parts) and not is_sym(idx)):
+        if I.truth(I.binop("Ge", idx, bytes_len(I, v), "usize")):
+            return none()
+        return some(Ref(ByteSlot(v, idx, I), ()))
     el = as_elems(I, v)
     if is_sym(idx):
-        raise I.unanalysable("slice.get(symbolic) on concrete list")
+        # symbolic index into a concrete list: None when the index may be out of range, otherwise some element
+        lo, hi = bounds(idx)
+        if (lo < 0 or hi >= len(el)) and I.truth(Sym("Ge", (idx, len(el)), "bool")):
+            return none()
+        if not el:
+            return none()
+        return some(Ref(Box_(pick_elem(I, el, idx), "elem"), ()))
     return some(Ref(ListSlot(el, idx), ())) if 0 <= idx < len(el) else none()
 
 
@@ -618,6 +633,11 @@ def _vec_truncate(I, f, a):
         return unit()
     if isinstance(v, VecObj) and not is_sym(a[1]):
         del v.elems[a[1]:]
+        return unit()
+    if isinstance(v, Bytes):
+        # keeps the string when new_len is not shorter, otherwise the prefix of that length
+        if not I.truth(I.binop("Ge", a[1], bytes_len(I, v), "usize")):
+            v.parts = list(bytes_slice(I, v, 0, a[1]).parts)
         return unit()
     raise I.unanalysable("Vec::truncate on %r" % type(v).__name__)
 
@@ -809,6 +829,19 @@ class ByteSlot(Box_):
         self.b.parts = [("pay", Payload(kind, cs, ln, origin="byteset_of:%d:%d" % (src, n)))]
 
 
+def pick_elem_indexed(I, el, idx):
+    """element selected by a symbolic index that is known to be in range: fork over the positions the index can take
+    (its interval and the relational facts of the path), so that `table[i]` keeps what is known about `i`"""
+    lo, hi = bounds(idx)
+    cand = list(range(max(lo, 0), min(hi, len(el) - 1) + 1))
+    if not cand:
+        raise PathEnd("panic", "index out of bounds")
+    for i in cand[:-1]:
+        if I.truth(I.binop("Eq", idx, i, "usize")):
+            return el[i]
+    return el[cand[-1]]
+
+
 def pick_elem(I, el, idx):
     if not el:
         raise PathEnd("panic", "index into empty")
@@ -905,8 +938,8 @@ def byte_at(I, b, idx):
     return Sym("byte_at", (idx,), "u8")
 
 
-def slice_range(I, v, rng):
-    """v[range] for Range / RangeFrom / RangeTo"""
+def slice_range(I, v, rng, checked=False):
+    """v[range] for Range / RangeFrom / RangeTo; with checked=True the result of `get(range)`: None instead of a panic"""
     name = rng.adt.split("::")[-1]
     n = length_of(I, v)
     if name == "Range":
@@ -921,9 +954,13 @@ def slice_range(I, v, rng):
         raise I.unanalysable("slice by %s" % name)
     # bounds checks (slice_index_order_fail / slice_end_index_len_fail)
     if I.truth(I.binop("Gt", lo, hi, "usize")):
+        if checked:
+            return None
         I.run.panics.append(("slice_order", I.where()))
         raise PathEnd("panic", "slice index starts after end")
     if I.truth(I.binop("Gt", hi, n, "usize")):
+        if checked:
+            return None
         I.run.panics.append(("slice_oob", I.where()))
         raise PathEnd("panic", "slice end out of range")
     if hasattr(v, "slice"):
@@ -1331,10 +1368,60 @@ def _reg_int_methods():
         MODELS[base + "from_be_bytes"] = _mk_from_bytes("be")
         MODELS[base + "min"] = _ord_min
         MODELS[base + "max"] = _ord_max
+        MODELS[base + "wrapping_shl"] = _mk_wrapping_shift("Shl")
+        MODELS[base + "unsigned_abs"] = _int_abs
+        MODELS[base + "abs"] = _int_abs
+        MODELS[base + "wrapping_abs"] = _int_abs
+        MODELS[base + "wrapping_shr"] = _mk_wrapping_shift("Shr")
     MODELS["core::f64::<impl f64>::to_be_bytes"] = _mk_to_bytes("be")
     MODELS["core::f64::<impl f64>::to_le_bytes"] = _mk_to_bytes("le")
     MODELS["core::f64::<impl f64>::from_be_bytes"] = _mk_from_bytes("be")
     MODELS["core::f64::<impl f64>::from_le_bytes"] = _mk_from_bytes("le")
+
+
+def _int_abs(I, f, a):
+    """abs / unsigned_abs / wrapping_abs"""
+    ty = _int_ty(f)
+    name = f["path"].split("::")[-1]
+    x = a[0]
+    tlo, thi = ty_range(ty)
+    uty = "u" + ty[1:] if ty.startswith("i") else ty
+    if not is_sym(x):
+        if name == "unsigned_abs":
+            return abs(x)
+        if x == tlo and tlo < 0:
+            if name == "abs":
+                I.run.panics.append(("overflow", I.where()))
+                raise PathEnd("panic", "abs overflow")
+            return x
+        return abs(x)
+    lo, hi = bounds(x)
+    if lo >= 0:
+        return x if name != "unsigned_abs" else I.cast_int(x, ty, uty)
+    m = max(abs(lo), abs(hi))
+    if name == "abs" and lo == tlo and tlo < 0:
+        if I.truth(Sym("Eq", (x, tlo), "bool")):
+            I.run.panics.append(("overflow", I.where()))
+            raise PathEnd("panic", "abs overflow")
+    return Sym("abs", (x,), uty if name == "unsigned_abs" else ty, 0 if hi >= 0 or lo <= 0 else min(abs(lo), abs(hi)), m)
+
+
+def _mk_wrapping_shift(op):
+    def m(I, f, a):
+        """x.wrapping_shl(n) = x << (n mod bits), bits shifted out are dropped"""
+        ty = _int_ty(f)
+        bits = INT_TYPES[ty][0]
+        x, n = a
+        lo, hi = bounds(n) if is_sym(n) else (n, n)
+        if lo < 0 or hi >= bits:
+            n = (n % bits) if not is_sym(n) else Sym("and", (n, bits - 1), "u32", 0, bits - 1)
+        if not is_sym(x) and not is_sym(n):
+            tlo, thi = ty_range(ty)
+            r = (x << n) if op == "Shl" else (x >> n)
+            r &= (1 << bits) - 1
+            return r - (1 << bits) if (tlo < 0 and r > thi) else r
+        return Sym("shl" if op == "Shl" else "shr", (x, n), ty)
+    return m
 
 
 def _mk_sat(op):
@@ -1351,6 +1438,10 @@ def _mk_sat(op):
             lo, hi = alo + blo, ahi + bhi
         else:
             lo, hi = alo - bhi, ahi - blo
+        if type(x).__name__ == "Lin" or type(y).__name__ == "Lin":
+            # length arithmetic: when the operation provably does not saturate it is the plain linear term
+            if (op == "Add" and hi <= thi and lo >= tlo) or (op == "Sub" and (lo >= tlo or I.decide_cmp("Ge", x, y) is True)):
+                return I.binop(op, x, y, ty)
         s = Sym("sat_" + op.lower(), (x, y), ty, max(tlo, min(thi, lo)), max(tlo, min(thi, hi)))
         return s
     return m
@@ -1441,6 +1532,8 @@ def _mk_from_bytes(endian):
 @model("std::cmp::Ord::min")
 def _ord_min(I, f, a):
     x, y = a
+    if any(not is_sym(v) and not isinstance(v, (int, float)) for v in a):
+        return x if I.truth(I.binop("Lt", a[0], a[1], "usize")) else y
     if not is_sym(x) and not is_sym(y):
         return min(x, y)
     alo, ahi = bounds(x)
@@ -1452,6 +1545,8 @@ def _ord_min(I, f, a):
 @model("std::cmp::Ord::max")
 def _ord_max(I, f, a):
     x, y = a
+    if any(not is_sym(v) and not isinstance(v, (int, float)) for v in (x, y)):
+        return y if I.truth(I.binop("Lt", x, y, "usize")) else x       # lazily decided lengths: compare on the path
     if not is_sym(x) and not is_sym(y):
         return max(x, y)
     alo, ahi = bounds(x)
@@ -1548,6 +1643,53 @@ def _box_new(I, f, a):
     return BoxVal(a[0])
 
 
+@model("<std::boxed::Box<T, A> as std::convert::AsRef<T>>::as_ref", "<std::boxed::Box<T, A> as std::convert::AsMut<T>>::as_mut",
+       "<std::boxed::Box<T, A> as std::borrow::Borrow<T>>::borrow", "<std::boxed::Box<T, A> as std::borrow::BorrowMut<T>>::borrow_mut")
+def _box_as_ref(I, f, a):
+    v = deref(I, a[0])
+    if hasattr(v, "deref_ref"):
+        return v.deref_ref(I)
+    return a[0]        # abstract objects stand for the box and its content alike
+
+
+@model("std::ops::FnMut::call_mut", "std::ops::Fn::call", "std::ops::FnOnce::call_once")
+def _fn_call(I, f, a):
+    """call through a generic `impl Fn*` parameter: the callee is the closure value itself"""
+    args = a[1]
+    if isinstance(args, Ref):
+        args = I.load(args)
+    if not (isinstance(args, Agg) and args.adt == "tuple"):
+        raise I.unanalysable("Fn*::call with argument pack %r" % (type(args).__name__,))
+    return I.call_closure(a[0], list(args.fields))
+
+
+@model("std::char::convert::<impl std::convert::From<u8> for char>::from", "std::char::convert::<impl std::convert::From<char> for u32>::from",
+       "std::char::convert::<impl std::convert::From<char> for u64>::from")
+def _char_from_u8(I, f, a):
+    return a[0]          # characters are their code points
+
+
+@model("<T as std::convert::TryInto<U>>::try_into", "core::array::<impl std::convert::TryFrom<&'a [T]> for [T; N]>::try_from",
+       "core::array::<impl std::convert::TryFrom<&'a [T]> for &'a [T; N]>::try_from")
+def _slice_try_into_array(I, f, a):
+    """&[T] -> [T; N]: Ok exactly when the slice has N elements"""
+    targs = (f.get("args") or []) + ((f.get("res") or {}).get("args") or [])
+    tgt = next((t for t in reversed(targs) if re.search(r"\[.*;\s*\w+\]$", str(t).strip())), None)
+    if tgt is None:
+        raise I.unanalysable("try_into with target %r" % (targs,))
+    nm = re.search(r";\s*(\w+)\]$", tgt.strip()).group(1)
+    n = int(nm) if nm.isdigit() else I.const_param(I.frames[-1], nm, "usize")
+    v = deref(I, a[0])
+    ln = length_of(I, v)
+    if I.truth(I.binop("Ne", ln, n, "usize")):
+        return err(Opaque("TryFromSliceError"))
+    if isinstance(v, Bytes):
+        arr = Agg("array", None, [byte_at(I, v, i) for i in range(n)])
+    else:
+        arr = Agg("array", None, list(as_elems(I, v))[:n])
+    return ok(Ref(Box_(arr, "arr"), ()) if str(tgt).strip().startswith("&") else arr)
+
+
 @model("std::hint::must_use", "std::convert::identity", "<T as std::convert::From<T>>::from",
        "<T as std::convert::Into<U>>::into")
 def _identity(I, f, a):
@@ -1640,6 +1782,30 @@ def _find(I, f, a):
     return none()
 
 
+@model("std::iter::Iterator::find_map", "<std::slice::Iter<'a, T> as std::iter::Iterator>::find_map")
+def _find_map(I, f, a):
+    it = _it(I, a[0])
+    for x in _drive(I, it):
+        r = I.call_closure(a[1], [x])
+        if is_some(r):
+            return r
+        if not is_none(r):
+            raise I.unanalysable("find_map closure returned %r" % (type(r).__name__,))
+    return none()
+
+
+@model("core::slice::<impl [T]>::contains")
+def _slice_contains_generic(I, f, a):
+    v = deref(I, a[0])
+    needle = deref(I, a[1])
+    if hasattr(v, "contains"):
+        return v.contains(I, needle)
+    for e in as_elems(I, v):
+        if I.truth(agg_eq(I, e, needle)):
+            return True
+    return False
+
+
 @model("std::iter::Iterator::all", "<std::slice::Iter<'a, T> as std::iter::Iterator>::all")
 def _all(I, f, a):
     it = _it(I, a[0])
@@ -1669,7 +1835,18 @@ def _nth(I, f, a):
     it = _it(I, a[0])
     n = a[1]
     if is_sym(n):
-        raise I.unanalysable("nth(symbolic)")
+        # symbolic position in a finite sequence: None when it may be past the end, otherwise the element at that position
+        items = list(_drive(I, it))
+        lo, hi = bounds(n)
+        if (lo < 0 or hi >= len(items)) and I.truth(Sym("Ge", (n, len(items)), "bool")):
+            return none()
+        if not items:
+            return none()
+        vals = [I.load(x) if isinstance(x, Ref) else x for x in items]
+        if all(isinstance(v, int) and not isinstance(v, bool) for v in vals):
+            e = ElemOf(vals, n)
+            return some(Ref(Box_(e, "nth"), ()) if isinstance(items[0], Ref) else e)
+        return some(pick_elem_indexed(I, items, n))
     for i, x in enumerate(_drive(I, it)):
         if i == n:
             return some(x)
@@ -1913,8 +2090,31 @@ def _slice_first(I, f, a):
     v = deref(I, a[0])
     if hasattr(v, "get"):
         return v.get(I, 0)
+    if isinstance(v, Bytes) and not all(p[0] == "lit" for p in v.parts):
+        if I.truth(I.binop("Eq", bytes_len(I, v), 0, "usize")):
+            return none()
+        return some(Ref(ByteSlot(v, 0, I), ()))
     el = as_elems(I, v)
     return some(Ref(ListSlot(el, 0), ())) if el else none()
+
+
+@model("core::slice::<impl [T]>::split_at", "core::slice::<impl [T]>::split_at_mut")
+def _slice_split_at(I, f, a):
+    v = deref(I, a[0])
+    mid = a[1]
+    n = length_of(I, v)
+    if I.truth(I.binop("Gt", mid, n, "usize")):
+        I.run.panics.append(("split_at_oob", I.where()))
+        raise PathEnd("panic", "split_at: mid > len")
+    if hasattr(v, "slice"):
+        l, r = v.slice(I, 0, mid), v.slice(I, mid, n)
+    elif isinstance(v, Bytes):
+        l, r = bytes_slice(I, v, 0, mid), bytes_slice(I, v, mid, n)
+    elif not is_sym(mid) and not is_sym(n):
+        l, r = SliceView(v, 0, mid), SliceView(v, mid, n)
+    else:
+        raise I.unanalysable("split_at(symbolic) of %r" % type(v).__name__)
+    return Agg("tuple", None, [Ref(Box_(l, "split_l"), ()), Ref(Box_(r, "split_r"), ())])
 
 
 @model("core::slice::<impl [T]>::split_last")
